@@ -41,12 +41,21 @@ struct PolU0 { // all defaults, unaligned map, poison hooks
 	void unpoison_expand(void *p, size_t n) { slabh_poison(2, p, n); }
 };
 // parametrised geometries; the four shapes differ in which members exist (that is what slab.hpp detects)
-// policies may declare their constants with any integral type: odd bucket counts use unsigned int, even ones size_t
+// policies may declare their constants with any integral type: odd bucket counts use unsigned int, even ones size_t;
+// a constant given as 0 is not declared at all (the pool falls back to its default for that one constant)
 template <int NB> using GeomT = std::conditional_t<(NB & 1) != 0, unsigned int, size_t>;
+template <class T, size_t V> struct DPage { static constexpr T pagesize = V; };
+template <class T> struct DPage<T, 0> {};
+template <class T, size_t V> struct DSlab { static constexpr T slabsize = V; };
+template <class T> struct DSlab<T, 0> {};
+template <class T, size_t V> struct DSb { static constexpr T sb_size = V; };
+template <class T> struct DSb<T, 0> {};
+template <int V> struct DNb { static constexpr int num_buckets = V; };
+template <> struct DNb<0> {};
+template <size_t PAGE, size_t SLAB, size_t SB, int NB> struct Consts : DPage<GeomT<NB>, PAGE>, DSlab<GeomT<NB>, SLAB>, DSb<GeomT<NB>, SB>, DNb<NB> {};
 template <size_t PAGE, size_t SLAB, size_t SB, int NB, int AL, int PO> struct Pol;
 template <size_t PAGE, size_t SLAB, size_t SB, int NB>
-struct Pol<PAGE, SLAB, SB, NB, 1, 1> {
-	static constexpr GeomT<NB> pagesize = PAGE, slabsize = SLAB, sb_size = SB; static constexpr int num_buckets = NB;
+struct Pol<PAGE, SLAB, SB, NB, 1, 1> : Consts<PAGE, SLAB, SB, NB> {
 	uintptr_t map(size_t len, size_t align) { return slabh_map(len, align); }
 	void unmap(uintptr_t b, size_t l) { slabh_unmap(b, l); }
 	void poison(void *p, size_t n) { slabh_poison(0, p, n); }
@@ -54,20 +63,17 @@ struct Pol<PAGE, SLAB, SB, NB, 1, 1> {
 	void unpoison_expand(void *p, size_t n) { slabh_poison(2, p, n); }
 };
 template <size_t PAGE, size_t SLAB, size_t SB, int NB>
-struct Pol<PAGE, SLAB, SB, NB, 1, 0> {
-	static constexpr GeomT<NB> pagesize = PAGE, slabsize = SLAB, sb_size = SB; static constexpr int num_buckets = NB;
+struct Pol<PAGE, SLAB, SB, NB, 1, 0> : Consts<PAGE, SLAB, SB, NB> {
 	uintptr_t map(size_t len, size_t align) { return slabh_map(len, align); }
 	void unmap(uintptr_t b, size_t l) { slabh_unmap(b, l); }
 };
 template <size_t PAGE, size_t SLAB, size_t SB, int NB>
-struct Pol<PAGE, SLAB, SB, NB, 0, 0> {
-	static constexpr GeomT<NB> pagesize = PAGE, slabsize = SLAB, sb_size = SB; static constexpr int num_buckets = NB;
+struct Pol<PAGE, SLAB, SB, NB, 0, 0> : Consts<PAGE, SLAB, SB, NB> {
 	uintptr_t map(size_t len) { return slabh_map(len, 0); }
 	void unmap(uintptr_t b, size_t l) { slabh_unmap(b, l); }
 };
 template <size_t PAGE, size_t SLAB, size_t SB, int NB>
-struct Pol<PAGE, SLAB, SB, NB, 0, 1> {
-	static constexpr GeomT<NB> pagesize = PAGE, slabsize = SLAB, sb_size = SB; static constexpr int num_buckets = NB;
+struct Pol<PAGE, SLAB, SB, NB, 0, 1> : Consts<PAGE, SLAB, SB, NB> {
 	uintptr_t map(size_t len) { return slabh_map(len, 0); }
 	void unmap(uintptr_t b, size_t l) { slabh_unmap(b, l); }
 	void poison(void *p, size_t n) { slabh_poison(0, p, n); }
